@@ -57,6 +57,9 @@ pub struct NfaBuilder<L, V> {
     pub(crate) outputs: Vec<Output<V>>, // in which common parts are merged.
     pub(crate) len: usize,
     pub(crate) match_kind: MatchKind,
+    // Patterns seen so far in leftmost-first mode, where shadowed patterns leave no trace in
+    // the trie and duplicates cannot be detected at the terminal node.
+    seen: alloc::collections::BTreeSet<Vec<L>>,
 }
 
 impl<L, V> NfaBuilder<L, V>
@@ -73,6 +76,7 @@ where
             outputs: vec![],
             len: 0,
             match_kind,
+            seen: alloc::collections::BTreeSet::new(),
         }
     }
 
@@ -85,6 +89,10 @@ where
             .map_err(|_| DaachorseError::invalid_argument("pattern.len()", "<=", u32::MAX))?;
         let pattern_len = NonZeroU32::new(pattern_len)
             .ok_or_else(|| DaachorseError::invalid_argument("pattern.len()", ">=", 1))?;
+
+        if self.match_kind.is_leftmost_first() && !self.seen.insert(pattern.to_vec()) {
+            return Err(DaachorseError::duplicate_pattern(format!("{pattern:?}")));
+        }
 
         let mut state_id = ROOT_STATE_ID;
         for &c in pattern {
